@@ -726,6 +726,10 @@ def handle (j : Json) : Json := Id.run do
           else if prop == "C01" then holdsC01Tick sc c
           else if prop == "C03" then holdsC03Tick sc c
           else if prop == "C17" then holdsC17Tick sc c
+          else if prop == "C05" then
+            -- the plugin protocol C05's engine theorems assume (OomdProps.C05): a kill plugin calls pause_actions only right
+            -- before it returns STOP - the delay of an action that does not stop its chain must not reach the ruleset
+            (if (jint? c.tk "pause").isSome && c.ret != "STOP" then ["C05.pause_only_before_stop"] else [])
           else []
         if !v.isEmpty && firstBad.isNone then firstBad := some c
         viol := viol ++ v
